@@ -120,6 +120,12 @@ def elLt (a b : Int) : Bool :=
 /-- sort key with the same order: carbon first, then atomic number -/
 def elLe (a b : Int) : Bool := !elLt b a
 
+/-- the operators `functools.total_ordering` derives from `__lt__` and `__eq__` (equality of atomic numbers):
+`a <= b` is `a < b or a == b`, `a > b` is `not (a < b) and a != b`, `a >= b` is `not (a < b)` -/
+def elLeT (a b : Int) : Bool := elLt a b || (a == b)
+def elGtT (a b : Int) : Bool := !elLt a b && (a != b)
+def elGeT (a b : Int) : Bool := !elLt a b
+
 /-- distinct values in first-occurrence order (the key order of a `Counter`/dict) -/
 def firstOcc : List Int → List Int
   | [] => []
